@@ -16,7 +16,7 @@ pub fn histex_replay(v: &serde_json::Value) -> i32 {
     let prop = v["property"].as_str().unwrap_or("").to_string();
     let case = v["case"].clone();
     for tier in [props::Tier::Quick, props::Tier::Thorough] {
-        let r = match propsb::run(&prop, tier) {
+        let r = match propsb::run(&prop, tier).or_else(|| propsb::grid_for_a(&prop, tier)) {
             Some(r) => r,
             None => {
                 eprintln!("unknown engine-B property {}", prop);
